@@ -1,4 +1,5 @@
 import Sourmash.Model.Json
+import Sourmash.Model.Md5
 /-!
 Spec/SigFormat.lean — what property C06 *says*, independent of how the serde code does it.
 
@@ -10,7 +11,11 @@ Spec/SigFormat.lean — what property C06 *says*, independent of how the serde c
   hashes sorted, each still paired with the abundance listed next to it;
 * `filterSpec`: loading with a ksize / molecule filter returns exactly the matching sketches, one per
   returned signature, in file order;
-* a save/load round trip is the identity on everything observable except the container type.
+* a save/load round trip is the identity on everything observable except the container type;
+* `sketchDefect`: whatever life a sketch had before it was saved (adds, removals, merges, md5 queries, clones,
+  earlier loads), the sketch object in the document stands on its own: its hashes are strictly increasing,
+  `abundances` (when present) has one entry per hash, and `md5sum` is the MD5 of `ksize` followed by the
+  hashes listed next to it.
 -/
 namespace SigFormat
 open SigJson
@@ -150,6 +155,75 @@ def legacyView : Json → Option (List (List (Option SketchView)))
       | _ => none
     | _ => none
   | _ => none
+
+/-! ### a saved sketch object stands on its own -/
+
+/-- the published `md5sum`: MD5 (lower-case hex) of the decimal digits of `ksize` followed by the decimal
+    digits of every hash, in the order listed -/
+def md5Of (ksize : Nat) (mins : List Nat) : Str := str (Md5.hex (Md5.digest ksize mins))
+
+def strictInc : List Nat → Bool
+  | a :: b :: t => decide (a < b) && strictInc (b :: t)
+  | _ => true
+
+/-- `none`: the sketch object is coherent — strictly increasing hashes, one abundance per hash when
+    abundances are listed, and the md5sum of exactly the `ksize` and hashes written next to it.
+    `some what`: the first thing an independent reader would trip over. -/
+def sketchDefect : Json → Option String
+  | .obj kvs =>
+    match get "ksize" kvs, (get "mins" kvs).bind numsOf, get "md5sum" kvs with
+    | some (.num k), some mins, some (.str md5) =>
+      if !strictInc mins then some "mins-not-strictly-increasing"
+      else if (match get "abundances" kvs with
+               | none => false
+               | some j => match numsOf j with
+                 | some ab => ab.length != mins.length
+                 | none => true) then some "abundances-not-one-per-hash"
+      else if md5 != md5Of k mins then some "md5sum-not-of-the-saved-mins"
+      else none
+    | _, _, _ => some "not-a-sketch-object"
+  | _ => some "not-a-sketch-object"
+
+/-- the sketch objects of a document, per signature -/
+def sketchObjects : Json → List (List Json)
+  | .arr sigs => sigs.map fun
+    | .obj kvs => match get "signatures" kvs with
+      | some (.arr sks) => sks
+      | _ => []
+    | _ => []
+  | _ => []
+
+/-- first defect among the sketch objects selected by `which` (per signature, per sketch) -/
+def documentDefect (j : Json) (which : List (List Bool)) : Option String :=
+  (((sketchObjects j).zip which).flatMap fun p => (p.1.zip p.2).filterMap fun q =>
+    if q.2 then sketchDefect q.1 else none).head?
+
+/-- the state of a sketch that the sketch operations keep (C01, C13): what `sketchDefect` asks of the
+    document, asked of the state -/
+structure Coherent (m : MinHash) : Prop where
+  sorted : strictInc m.mins = true
+  aligned : ∀ a, m.abunds = some a → a.length = m.mins.length
+  md5 : m.md5 = md5Of m.ksize m.mins
+
+def CoherentSketch : Sketch → Prop
+  | .vec m | .tree m => Coherent m
+  | .hll .. => False
+
+/-! worked instances (evaluated whenever this file is compiled): the two ways a document can betray a sketch
+whose life went wrong — an md5sum left over from earlier hashes, abundances of hashes that are gone -/
+section
+private def obj (ksize : Nat) (mins : List Nat) (ab : Option (List Nat)) (md5 : Str) : Json :=
+  .obj ([(str "num", .num 3), (str "ksize", .num ksize), (str "seed", .num 42), (str "max_hash", .num 0),
+         (str "mins", .arr (mins.map .num)), (str "md5sum", .str md5)] ++
+        (match ab with | some a => [(str "abundances", .arr (a.map .num))] | none => []) ++
+        [(str "molecule", .str (str "DNA"))])
+#guard sketchDefect (obj 21 [1, 2, 10] none (md5Of 21 [1, 2, 10])) == none
+#guard md5Of 21 [1, 2, 10] == str "df5a50fb3214b36f12916dadd6f2a062"   -- what the real `md5sum()` reports
+#guard sketchDefect (obj 21 [1, 2, 10] none (md5Of 21 [10, 20, 30])) == some "md5sum-not-of-the-saved-mins"
+#guard sketchDefect (obj 31 [1, 2, 10] (some [5, 7, 5, 2, 3]) (md5Of 31 [1, 2, 10])) == some "abundances-not-one-per-hash"
+#guard sketchDefect (obj 31 [1, 2, 10] (some [5, 7, 5]) (md5Of 31 [1, 2, 10])) == none
+#guard sketchDefect (obj 31 [2, 2, 10] none (md5Of 31 [2, 2, 10])) == some "mins-not-strictly-increasing"
+end
 
 /-! ### filters -/
 
